@@ -28,8 +28,7 @@ from __future__ import absolute_import
 import logging
 logger = logging.getLogger(__name__)
 
-from spyne import MethodContext, BODY_STYLE_BARE, ComplexModelBase, \
-    BODY_STYLE_EMPTY, Ignored
+from spyne import MethodContext, BODY_STYLE_BARE, ComplexModelBase, Ignored
 
 from spyne.client import Factory
 from spyne.const.ansi_color import LIGHT_RED
@@ -197,6 +196,15 @@ def _cb_async(ret, ctx, cnt, fc):
     return _cb_sync(ctx, cnt, fc)
 
 
+def _is_empty_wrapper(out_message):
+    """True for the response message the decorator generates for a method that
+    has no return value."""
+
+    return issubclass(out_message, ComplexModelBase) \
+                                   and out_message.Attributes._wrapper \
+                                   and len(out_message._type_info) == 0
+
+
 def _cb_sync(ctx, cnt, fc):
     retval = None
 
@@ -209,14 +217,12 @@ def _cb_sync(ctx, cnt, fc):
                 and isinstance(ctx.out_object[0], Ignored):
             retval = ctx.out_object[0]
 
+        elif _is_empty_wrapper(ctx.descriptor.out_message):
+            # nothing is declared to come back, whatever the body style is.
+            retval = None
+
         elif ctx.descriptor.is_out_bare():
             retval = ctx.out_object[0]
-
-        elif ctx.descriptor.body_style is BODY_STYLE_EMPTY:
-            retval = None
-
-        elif len(ctx.descriptor.out_message._type_info) == 0:
-            retval = None
 
         elif len(ctx.descriptor.out_message._type_info) == 1:
             retval = ctx.out_object[0]
